@@ -35,6 +35,15 @@ RULE = ("scenario = fit on a training series with integer index (RangeIndex or I
         "no update()); every probe is compared with deep copies of a second estimator that received "
         "the same fit/update calls but no transform call (same stretch, and whole series restricted "
         "to the stretch). "
+        "SUB-DAILY / DAILY TIME STAMPS (56 per quick run, 400 thorough): Deseasonalizer / "
+        "ConditionalDeseasonalizer on a DatetimeIndex or PeriodIndex with frequency h, min, s or D "
+        "(integer time t = t steps of the frequency after 2000-01-01), sp dividing (2,3,4,6,12,24 "
+        "...) and NOT dividing (5,7,9,10,11,13) the number of steps per day, training series that "
+        "pass a day boundary (26-60 hourly points; thorough: sp=168 on 340 hourly points), stretches "
+        "around the first day boundary, 1-30 days after, a day or more BEFORE, overlapping past the "
+        "first day, contiguous and gapped, 0-2 updates, shifted by k; plus fit_transform of hourly "
+        "training series of 26-45 points against the decomposition; the expected component is "
+        "computed from POSITIONS, (t - t0) mod sp. "
         "corpus/C13 pins the minimal inputs of the three repaired defects (update batch off phase, "
         "gapped stretch, label-based window). "
         "non-trivial = the scenario ran (no exception); distinct = distinct canonical JSON case")
@@ -103,6 +112,11 @@ MODELLED = [
     "sub-estimators (forecaster_.predict, transformer_.transform) are trusted to be queries; "
     "NaiveForecaster-based trends have no value model (index, round trip where finite, "
     "call-history independence and restriction only)",
+    "date-like indices: DatetimeIndex and PeriodIndex with frequency D, h, min, s (and monthly "
+    "PeriodIndex) are RUN for the deseasonalizers and compared position-wise with the integer-time "
+    "model; frequencies with a multiplier (2h, 15min), business / week / quarter / year "
+    "frequencies and time-zone aware indices are not generated; Detrender and the call histories "
+    "stay on integer indices (see NOT_RUNNABLE)",
     "MeanTransformer (series-to-primitives) is not a series-to-series transformer and is not covered",
 ]
 NOT_RUNNABLE = [
@@ -271,6 +285,64 @@ def _gen_deseason(rng, cases, reps):
                 n = 2 * sp + extra
                 y = _seasonal_series(rng, n, sp, True)
                 cases.append(_common(rng, "train", {"sp": sp, "model": model}, y, 0, y))
+
+
+def _gen_subdaily(rng, cases, count, long_sp):
+    """(conditional) deseasonalizer on DatetimeIndex / PeriodIndex with frequency D, h, min, s:
+    training series and stretches that lie MORE THAN ONE DAY after (or before) the training start,
+    periods that do and do not divide the number of steps per day, with / without updates, shifted,
+    contiguous and gapped.  The expected component is computed from POSITIONS: (t - t0) mod sp."""
+    for i in range(count):
+        f = rng.choice(["h", "h", "h", "h", "min", "min", "s", "D"])
+        fam = rng.choice(["dt", "dt", "dt", "pd"])
+        S = STEPS_PER_DAY[f]
+        # 24 = 2^3*3, 1440 = 2^5*3^2*5, 86400 = 2^7*3^3*5^2: 7, 9, 10, 11, 13 (and 5 for hours)
+        # do not divide the day
+        sp = rng.choice([7, 7, 7, 5, 5, 9, 10, 3, 4, 6, 12, 24] if f == "h"
+                        else [7, 7, 7, 7, 11, 13, 5, 2, 3, 6, 4])
+        model = rng.choice(["additive", "multiplicative"])
+        kind = "cond" if i % 4 == 3 else "deseason"
+        if f == "h" and rng.random() < 0.6:
+            n = rng.randint(max(26, 2 * sp), max(60, 3 * sp))   # the training series passes a day
+        else:
+            n = (2 if kind == "deseason" else 3) * sp + rng.randint(0, sp + 2)
+        y = _seasonal_series(rng, n, sp, True)
+        r = rng.random()
+        if r < 0.3:
+            off = S + rng.randint(-2, sp)                # around the first day boundary
+        elif r < 0.55:
+            off = rng.choice([1, 2, 3, 7, 30]) * S + rng.randint(0, 2 * sp)
+        elif r < 0.7:
+            off = -(rng.choice([1, 2]) * S + rng.randint(0, sp))     # a day or more BEFORE
+        elif r < 0.85 and n > S:
+            off = rng.randint(S, n - 1)                  # overlapping, past the first day
+        else:
+            off = n + rng.randint(0, sp) + rng.choice([0, S])
+        _, z = _stretch(rng, n, sp, True, off)
+        cfg = {"sp": sp, "model": model}
+        if kind == "cond":
+            cfg["test"] = rng.choice(["auto", "true", "true", "false"])
+        c = _common(rng, kind, cfg, y, off, z, _des_ups(rng, n, sp, rng.choice([0, 0, 1, 2])),
+                    pre=rng.random() < 0.3)
+        c["idx"] = "%s:%s" % (fam, f)
+        if rng.random() < 0.3:
+            _with_gaps(rng, c, sp)
+        cases.append(c)
+    # the training series itself past its first day (fit_transform against the decomposition)
+    for sp, n in [(7, 30), (5, 26), (7, 45)] + ([(168, 340)] if long_sp else []):
+        y = _seasonal_series(rng, n, sp, True)
+        c = _common(rng, "train", {"sp": sp, "model": rng.choice(["additive", "multiplicative"])},
+                    y, 0, y)
+        c["idx"] = rng.choice(["dt:h", "dt:h", "pd:h"])
+        cases.append(c)
+    if long_sp:                    # hourly data with a weekly season, stretch in the second week
+        sp, n = 168, 336 + rng.randint(0, 30)
+        y = _seasonal_series(rng, n, sp, True)
+        off = rng.choice([170, 200, n + 5, 24 * 9 + 3])
+        _, z = _stretch(rng, n, 4, True, off)
+        c = _common(rng, "deseason", {"sp": sp, "model": "additive"}, y, off, z)
+        c["idx"] = "dt:h"
+        cases.append(c)
 
 
 def _gen_cond(rng, cases, count):
@@ -515,6 +587,7 @@ def gen_cases(rng, tier):
                               "optional": 8 if q else 30})
     _gen_deseason(rng, cases, 3 if q else 12)
     _gen_cond(rng, cases, 40 if q else 400)
+    _gen_subdaily(rng, cases, 56 if q else 400, long_sp=not q)
     _gen_detrend(rng, cases, 70 if q else 700)
     _gen_pointwise(rng, cases, "log", 16 if q else 150)
     _gen_pointwise(rng, cases, "boxcox", 20 if q else 200)
@@ -541,6 +614,34 @@ PERIOD_BASE = 360          # 2000-01
 DAY_BASE = "2000-01-01"
 
 
+STEPS_PER_DAY = {"D": 1, "h": 24, "min": 1440, "s": 86400}
+
+
+def _index_kind(idx):
+    """idx -> (family, frequency): "period" = monthly PeriodIndex, "datetime" = daily
+    DatetimeIndex (the two historical names), "dt:<f>" / "pd:<f>" = DatetimeIndex / PeriodIndex
+    with frequency f in D, h, min, s; integer time t <-> t steps of f after DAY_BASE"""
+    if idx == "period":
+        return "pd", "M"
+    if idx == "datetime":
+        return "dt", "D"
+    if idx[:3] in ("dt:", "pd:"):
+        return idx[:2], idx[3:]
+    return None, None
+
+
+def _time_point(fam, f, t):
+    import pandas as pd
+    if fam == "dt":
+        return pd.Timestamp(DAY_BASE) + pd.Timedelta(t, f)
+    if f == "M":
+        return pd.Period(ordinal=PERIOD_BASE + t, freq="M")
+    return pd.Period(DAY_BASE, freq=f) + t
+
+
+_CUR = {"idx": None}       # index kind of the scenario being run (for _canon)
+
+
 def _case_times(case, k=0):
     """time points of the transformed stretch (every index shifted by k)"""
     start = case["t0"] + k + case["off"]
@@ -551,25 +652,24 @@ def _case_times(case, k=0):
 def _series(vals, start, idx, rel=None):
     import numpy as np
     import pandas as pd
+    _CUR["idx"] = idx
     v = np.array([np.nan if x is None else x for x in vals], dtype=float)
+    fam, f = _index_kind(idx)
     if rel:                    # explicit, gapped time points start + rel[i]
         ts = [start + r for r in rel]
-        if idx == "period":
-            index = pd.PeriodIndex([pd.Period(ordinal=PERIOD_BASE + t, freq="M") for t in ts],
-                                   freq="M")
-        elif idx == "datetime":
-            index = pd.DatetimeIndex([pd.Timestamp(DAY_BASE) + pd.Timedelta(days=t) for t in ts])
+        if fam == "pd":
+            index = pd.PeriodIndex([_time_point(fam, f, t) for t in ts], freq=f)
+        elif fam == "dt":
+            index = pd.DatetimeIndex([_time_point(fam, f, t) for t in ts])
         else:
             index = pd.Index(np.array(ts, dtype="int64"))
         return pd.Series(v, index=index)
     if idx == "range":
         index = pd.RangeIndex(start, start + len(v))
-    elif idx == "period":      # time t <-> the month with ordinal PERIOD_BASE + t
-        index = pd.period_range(pd.Period(ordinal=PERIOD_BASE + start, freq="M"), periods=len(v),
-                                freq="M")
-    elif idx == "datetime":    # time t <-> day t after DAY_BASE
-        index = pd.date_range(pd.Timestamp(DAY_BASE) + pd.Timedelta(days=start), periods=len(v),
-                              freq="D")
+    elif fam == "pd":
+        index = pd.period_range(_time_point(fam, f, start), periods=len(v), freq=f)
+    elif fam == "dt":
+        index = pd.date_range(_time_point(fam, f, start), periods=len(v), freq=f)
     else:
         index = pd.Index(np.arange(start, start + len(v), dtype="int64"))
     return pd.Series(v, index=index)
@@ -643,14 +743,17 @@ def _canon(s):
     if not isinstance(s, pd.Series):
         raise TypeError("transform returned %s, not a Series" % type(s).__name__)
     idx = []
+    fam, f = _index_kind(_CUR["idx"] or "")
     for t in s.index:
-        if isinstance(t, pd.Period) and t.freqstr == "M":
-            idx.append(int(t.ordinal) - PERIOD_BASE)
-        elif isinstance(t, pd.Timestamp):
+        if isinstance(t, pd.Period) and fam == "pd" and t.freqstr == f:
+            idx.append(int(t.ordinal) - (PERIOD_BASE if f == "M"
+                                         else int(pd.Period(DAY_BASE, freq=f).ordinal)))
+        elif isinstance(t, pd.Timestamp) and fam == "dt":
             d = t - pd.Timestamp(DAY_BASE)
-            if d != pd.Timedelta(days=d.days):
-                raise TypeError("output index holds a time of day: %s" % t)
-            idx.append(int(d.days))
+            n = d // pd.Timedelta(1, f)
+            if d != pd.Timedelta(int(n), f):
+                raise TypeError("output index holds a time point off the %s grid: %s" % (f, t))
+            idx.append(int(n))
         elif isinstance(t, (int, np.integer)):
             idx.append(int(t))
         else:
@@ -1274,6 +1377,15 @@ def distribution(cases, results):
                 d["deseason:stretch-before-training"] += 1
             if c["off"] >= len(c["y"]):
                 d["deseason:stretch-after-training"] += 1
+            fam, f = _index_kind(c["idx"])
+            if f in STEPS_PER_DAY and f != "D":
+                S = STEPS_PER_DAY[f]
+                d["subdaily:%s" % f] += 1
+                d["subdaily:sp-%s-the-day" % ("divides" if S % sp == 0 else "does-not-divide")] += 1
+                if abs(c["off"]) >= S:
+                    d["subdaily:stretch-a-day-or-more-from-training-start"] += 1
+                    if S % sp and (c["off"] % S) % sp != c["off"] % sp:
+                        d["subdaily:phase-differs-if-days-are-dropped"] += 1
         if c.get("rel"):
             d["gapped-stretch:%s" % c["kind"]] += 1
         if c["kind"] == "detrend":
